@@ -712,9 +712,9 @@ func (r *Run) c11Table(n, L, depth int) []gts.Feature {
 }
 
 func (r *Run) c11Tables() {
-	rounds := 150
+	rounds := 1500
 	if r.tier == "thorough" {
-		rounds = 1500
+		rounds = 15000
 	}
 	for it := 0; it < rounds; it++ {
 		n := r.rng.intn(4)
@@ -978,9 +978,9 @@ func c11SlicePtrs(l gts.Location, into map[uintptr]bool) {
 }
 
 func (r *Run) c11Locations() {
-	rounds := 400
+	rounds := 2000
 	if r.tier == "thorough" {
-		rounds = 4000
+		rounds = 20000
 	}
 	for it := 0; it < rounds; it++ {
 		L := r.rng.rangeInt(4, 20)
@@ -1142,9 +1142,9 @@ func (r *Run) c11PropsSharing() {
 func propC11(r *Run) {
 	r.c11Bytes()
 	r.c11Tables()
-	rounds := 1200
+	rounds := 6000
 	if r.tier == "thorough" {
-		rounds = 12000
+		rounds = 60000
 	}
 	r.c11Programs(false, rounds)
 	r.c11Programs(true, rounds/3)
